@@ -235,6 +235,9 @@ def match_sig(pat, sig):
         if isinstance(v, list):
             if sig[k] not in v:
                 return False
+        elif isinstance(v, dict) and "re" in v:
+            if not re.search(v["re"], str(sig[k])):
+                return False
         elif sig[k] != v:
             return False
     return True
